@@ -153,10 +153,34 @@ PROPS["C02"] = P([("ladder", "fast", 1.0)],
     expect_probes=["order_judged", "extrapolated_ladder", "plain_ladder", "reused_object", "extrapolated_vs_plain_compared",
                    "geometry_0", "geometry_1", "geometry_2"])
 
+PROPS["C14"] = P([("trisolve", "fast", 0.6), ("trisolve", "trace", 0.2), ("trisolve", "asan", 0.2)],
+    "histories {construct(n, cyclic?), set entries, solve(b), solve(b) again, solve(b') ...} for n = 2,3,4..4096 over SPD "
+    "generators (strictly diagonally dominant, L L^T products, zero sub-diagonals, corner elements of either sign, symmetric "
+    "row scaling over 1e-5..1e5), DiagonalSolver likewise; a variant runs disjoint solver objects on 2..4 simulated caller "
+    "threads under the HB monitor; distinct = distinct (n, family, flags, matrix seed) signature",
+    "deterministic simulation of object histories (lazy in-place factorisation) and of caller threads; dense/banded reference "
+    "residual with normwise backward-error bound 16 n eps; bit equality of repeated solves",
+    "No schedule or I/O is involved in a single solve; the simulated dimension is the object's history (unfactorised -> "
+    "factorised) and concurrent use of disjoint objects (no hidden shared scratch).",
+    quick_runs=6000, quick_budget_s=40, thorough_budget_s=900,
+    expect_probes=["n_class_2_3", "n_class_large", "cyclic", "plain", "repeated_solve", "widely_scaled_rows", "caller_threads"])
+PROPS["C15"] = P([("lapool", "fast", 0.5), ("lapool", "trace", 0.25), ("lapool", "asan", 0.25)],
+    "operation histories (4..40 ops) over a pool of Vector / SparseMatrixCOO / SparseMatrixCSR / SparseLUSolver / "
+    "SymmetricTridiagonalSolver (cyclic or not) / DiagonalSolver objects: construct, set entries, solve, copy-construct, "
+    "copy-assign over equal or different size, move-construct, move-assign, self-assign, copy of a default-constructed object, "
+    "destroy, solve again; objects partitioned among 1..4 simulated caller threads; bad_alloc injected into copies",
+    "deterministic simulation of object histories, caller threads and allocation failures; refinement against a "
+    "value-semantics model (element reads; for solvers the solution of the model system)",
+    "After every copy/move the target is observationally equal to the source at that moment whatever the source had done "
+    "before; later operations on one do not affect the other; after an injected allocation failure the source is unchanged.",
+    quick_runs=6000, quick_budget_s=50, thorough_budget_s=900,
+    expect_probes=["op:copy_construct", "op:copy_assign", "op:move_construct", "op:move_assign", "op:self_assign",
+                   "op:copy_default", "caller_threads", "fault:alloc_fail"])
+
 NOT_APPLICABLE = {
     "C16": "pure sequential function (A,b)->x: SparseLUSolver factorises in its constructor, solveInPlace is const; no schedule, clock, I/O, fault or history for a simulator to own (DESIGN.md 9.3)",
     "C17": "PolarGrid is an immutable value object built sequentially; every query is a pure function of its arrays (DESIGN.md 9.3)",
     "C19": "closed-form const functions of (r,theta); no state, no parallel region, no I/O (DESIGN.md 9.3)",
 }
 PENDING = {k: "check under construction at this commit (see DESIGN.md section 6); not claimed yet" for k in
-           ["C14", "C15", "C18", "C20"]}
+           ["C18", "C20"]}
